@@ -2116,9 +2116,79 @@ def with_malformed(run, kinds):
     return wrapped
 
 
+def debug_pull_shapes():
+    """Hand-made shapes of the pull rule (flag on, an executor on a sub-graph): chains and joins of debug nodes below the
+    selection — a debug node is pulled exactly when ALL its inputs run (selected nodes or debug nodes pulled before it),
+    however many passes finding that out takes.  Yields (shape, problems)."""
+    from tawazi import dag as _dag, xn as _xn, cfg as _cfg
+    ran = []
+
+    def mk(name, **kw):
+        def f(*a):
+            ran.append(name)
+            return (name,) + a
+        f.__qualname__ = f.__name__ = name
+        return _xn(f, **kw)
+    a, b, c = mk("a"), mk("b"), mk("c")
+    check, report, archive = mk("check", debug=True), mk("report", debug=True), mk("archive", debug=True)
+    two, three, other = mk("two", debug=True), mk("three", debug=True), mk("other", debug=True)
+
+    def chain_join(x):
+        vb = b(x)
+        r = report(check(vb))
+        archive(vb, r)              # inputs: a selected node AND a debug node that is pulled one step later
+        return vb
+
+    def partial_parents(x):
+        va, vb, vc = a(x), b(x), c(x)
+        o = other(va)               # pullable: forces further passes
+        other2 = check(o)
+        two(va, vc)                 # c is NOT selected: never pulled, however many passes
+        three(va, vb, vc)
+        report(other2)
+        return va, vb, vc
+    shapes = [("chain+join/target-b", chain_join, ["b"], {"b", "check", "report", "archive"}),
+              ("partial-parents/target-a", partial_parents, ["a"], {"a", "other", "check", "report"}),
+              ("partial-parents/targets-a-b", partial_parents, ["a", "b"], {"a", "b", "other", "check", "report"})]
+    old = _cfg.RUN_DEBUG_NODES
+    try:
+        for name, desc, targets, want in shapes:
+            _cfg.RUN_DEBUG_NODES = True
+            bad = []
+            try:
+                d = _dag(desc)
+                ex = d.executor(target_nodes=targets)
+                planned = {x for x in ex.graph.nodes if ">!>" not in x}
+                if planned != want:
+                    bad.append("the executor's graph holds %s, the rule gives %s" % (sorted(planned), sorted(want)))
+                ran.clear()
+                ex(1)
+                if set(ran) != want or len(ran) != len(set(ran)):
+                    bad.append("executed %s, the rule gives %s" % (sorted(ran), sorted(want)))
+            except BaseException as e:  # noqa: BLE001
+                bad.append("raised %s: %s" % (type(e).__name__, str(e)[:120]))
+            yield name, bad
+    finally:
+        _cfg.RUN_DEBUG_NODES = old
+
+
+def with_debug_shapes(run):
+    def wrapped(pid, tier, seed):
+        cov, fs, searcher = run(pid, tier, seed)
+        k_ = 0
+        for shape, problems in debug_pull_shapes():
+            k_ += 1
+            if problems:
+                fs.append(Failure("counterexample", "debug-pull-rule(%s)" % shape, dict(shape=shape), dict(problems=problems), slice_="G"))
+        cov["debug_pull_shapes"] = k_
+        cov["evaluations"] += k_
+        return cov, fs, searcher
+    return wrapped
+
+
 reg("C13", ["Props.C13_pulled_debug_has_inputs", "Props.C13_flag_off_no_debug", "Props.C13_debug_nodes_never_influence", "Props.C12_selection_is_closure",
             "Props.C13_C11_build_rule", "Props.C13_accepted_table_debug_never_influences", "Props.C13_flag_on_runs_debug_nodes", "Props.C13_pulled_debug_nodes_are_a_fixpoint"],
-    with_malformed(with_S(run_G), ["normal-on-debug"]), ASSUME_G)
+    with_debug_shapes(with_malformed(with_S(run_G), ["normal-on-debug"])), ASSUME_G)
 def nested_setup_histories():
     """A setup node inside a DAG that an outer DAG calls — plainly, or under an activation flag computed at run time — is
     still a setup node of the outer instance: over setup() / calls / an executor run it executes at most once and every
